@@ -359,5 +359,45 @@ def obligation_gate(rep, ctx, pid, found_input):
     return cq
 
 
+def run_lines(cmd, lines, env=None, shards=None):
+    """Feed lines to `cmd` (one output line per input line), sharded over the cores; returns the output lines in order."""
+    import threading
+    n = min(shards or NCPU, max(1, len(lines)))
+    outs = [None] * n
+
+    def work(i):
+        ch = lines[i::n]
+        if not ch:
+            outs[i] = []
+            return
+        p = subprocess.run(cmd, input="\n".join(ch) + "\n", capture_output=True, text=True, env=env)
+        o = p.stdout.split("\n")
+        if o and o[-1] == "":
+            o.pop()
+        if len(o) < len(ch):
+            o += ["CRASH rc=%s %s" % (p.returncode, p.stderr[-300:].replace("\n", " "))] * (len(ch) - len(o))
+        outs[i] = o
+    ths = [threading.Thread(target=work, args=(i,)) for i in range(n)]
+    for t in ths:
+        t.start()
+    for t in ths:
+        t.join()
+    res = [None] * len(lines)
+    for i in range(n):
+        for k, idx in enumerate(range(i, len(lines), n)):
+            res[idx] = outs[i][k]
+    return res
+
+
+def run_pair(ctx, go_suite, ml_suite, lines):
+    """the implementation (through ggx) and the extracted model on the same case lines"""
+    import threading
+    r = [None, None]
+    t1 = threading.Thread(target=lambda: r.__setitem__(0, run_lines([ctx.ggx, go_suite], lines, env=ctx.env, shards=NCPU // 2 or 1)))
+    t2 = threading.Thread(target=lambda: r.__setitem__(1, run_lines([ctx.modelrun, ml_suite], lines, shards=NCPU // 2 or 1)))
+    t1.start(); t2.start(); t1.join(); t2.join()
+    return r[0], r[1]
+
+
 def rng_for(ctx, salt):
     return random.Random("%d/%s" % (ctx.seed, salt))
